@@ -100,7 +100,7 @@ class Rig:
         env["PYTHONHASHSEED"] = "0"
         env["PYTHONDONTWRITEBYTECODE"] = "1"
         env["C04_CERTS"] = os.path.join(overlay.REPO, "tests")
-        env["ASAN_OPTIONS"] += ":symbolize=0"
+        env["ASAN_OPTIONS"] += ":symbolize=0:allocator_may_return_null=1"
         env["UBSAN_OPTIONS"] += ":symbolize=0"
         self.symtabs = {n: symbol_table(os.path.join(self.root, "aioquic", n + ".abi3.so")) for n in ("_crypto", "_buffer")}
         if not any(n == "HeaderProtection_remove" for _o, n in self.symtabs["_crypto"]):
@@ -405,10 +405,10 @@ def buffer_jobs(rnd, quick):
                 content = [rnd.randrange(256) for _ in range(cap)]
                 if pos < cap:
                     content[pos] = (lead << 6) | rnd.randrange(64)
-                for call in buffer_alphabet(cap):
-                    if lead and call["m"] != "pull_uint_var":
-                        continue
-                    jobs.append({"k": "buf", "cap": cap, "content": content, "pos": pos, "calls": [call]})
+                calls = [c for c in buffer_alphabet(cap) if not lead or c["m"] == "pull_uint_var"]
+                jobs.append({"k": "buf", "cap": cap, "content": content, "pos": pos, "calls": calls, "fresh": 1})
+    for v in (0, 1, 4, 1200, 65536, -1, -2, -2 ** 31, -2 ** 63, -2 ** 63 - 1, 2 ** 47, 2 ** 62, 2 ** 63 - 1, 2 ** 63, 2 ** 64):
+        jobs.append({"k": "bufnew", "capacity": v})
     for _ in range(150 if quick else 1500):
         cap = rnd.choice([0, 1, 2, 3, 4, 4, 8, 9, 16, 64, 1200])
         alpha = buffer_alphabet(cap)
@@ -566,7 +566,7 @@ def replay(check, rig):
     job = d["job"]
     recs = rig.run_chunk(number([job]), "replay")
     jobmap = {("replay", 0): job}
-    if job["k"] == "buf":
+    if job["k"] in ("buf", "bufnew"):
         lines = buffer_lines(recs, "replay")
         judge_buffer(check, lines, jobmap, "replay_buf")
     else:
@@ -606,7 +606,7 @@ def run(check):
         bufs = number(buffer_jobs(rnd, quick))
         groups = [("sess%d" % i, [j]) for i, j in enumerate(sess)]
         groups += [("host%d" % i, c) for i, c in enumerate(chunks(host, 10))]
-        groups += [("buf%d" % i, c) for i, c in enumerate(chunks(bufs, 4))]
+        groups += [("buf%d" % i, c) for i, c in enumerate(chunks(bufs, 6))]
         jobsof = dict(groups)
         futs = {tag: pool.submit(rig.run_chunk, jobs, tag) for tag, jobs in groups}
         model_results(check, f_sweep.result(), f_small.result(), f_buf.result(), m)
